@@ -44,8 +44,13 @@ CLAIMED["C06"] = dict(
    note=NOTE + " Oracles: stdlib compress/gzip for decompressed content, filepath.Match for one glob component, own tree walk. Content of a bit-flipped gzip stream is not checked (only that it is reported and the other inputs are complete).",
    tech=TECH)
 
+CLAIMED["C03"] = dict(
+   text="Seeded search over scenarios (corpus x aggregator command line) each executed in-process under 3-5 variants that must not matter (tuning flags, file order, division of lines among files, gzip, stdin, schedule, read latencies and therefore the number of intermediate renders in fake time, map-iteration salt). Oracle 1: exit status, CSV bytes and snapshot output identical across variants. Oracle 2: the CSV, parsed by a strict RFC 4180 parser, the summary counts and the exit status equal an independent sequential fold (stdlib regexp + the world's own template evaluator). Evidence over explored scenarios, not proof.",
+   ref="DESIGN.md section 5 C03",
+   note=NOTE + " Kept out on purpose: numeric/contextual/date sorts (C13's world), spark without --notruncate, order-sensitive reduce accumulators, zero/negative totals for bar-style renderers (C14), injected read errors (C06). One known finding (padding of table/heatmap/spark/bars depends on render cadence) is listed in known_findings.json.",
+   tech=TECH + "; metamorphic comparison across seeded variants of one scenario")
+
 NA = {
- "C03": "check under construction in this session (whole-CLI metamorphic world); will be claimed once its quick tier is green",
  "C07": "pure: a sequential data structure folded over a sample list; no schedule, clock or fault in it (the end state for orders the pipeline produces is compared to an independent fold by C03's oracle)",
  "C08": "pure function of (template, context): nothing to schedule or fault; input generation would not be simulation",
  "C09": "pure parser round-trip over template strings",
@@ -54,7 +59,7 @@ NA = {
  "C12": "dissect vs its specification is pure per (pattern, line); its slice-lifetime clause is exercised through C02's retained matches",
  "C13": "check under construction in this session",
  "C14": "renderers are pure functions of aggregator state and scale",
- "C16": "validity/faithfulness of JSON text are pure functions of the captured bytes; the determinism clause (map order) is exercised replayably by C03's {.}-keyed scenario under the map-order seam",
+ "C16": "validity/faithfulness of JSON text are pure functions of the captured bytes; the determinism clause (map order) is exercised replayably by C03's {.}-keyed scenario under the map-order seam (it found the member-order defect fixed in 55685c5)",
  "C17": "list semantics of array helpers are pure; the concurrent-evaluation clause is the shared-pool concurrency that C10's world and C05's race leg exercise",
  "C18": "calendar arithmetic over instants and zones is pure (no clock is read; now/live/delta belong to C10)",
  "C19": "formula parsing/evaluation vs a reference evaluator is pure",
